@@ -89,6 +89,7 @@ func (c02) Gen(r *rand.Rand, tier string, idx int) *core.Plan {
 	w["crit"] = healthy(3, 50)
 	w["warm"] = int64(core.Pick(r, 0, 0, 0, 1, 2, 3))
 	w["rival"] = int64(r.IntN(2))
+	w["failKind"] = int64(r.IntN(3))
 	if w["crit"] != 0 && r.IntN(2) == 0 {
 		w["critKey"] = int64(1 + r.IntN(len(c02CritKeys)-1))
 	}
@@ -190,6 +191,7 @@ func (l c02) Exec(env *core.Env) *core.Result {
 		declared := map[string]bool{}
 		makeWorld := func() (*world.ScriptedStore, *world.ScriptedValidator, plugin.Manager, *world.ScriptedPlugin, *world.ScriptedManager) {
 			store := world.NewScriptedStore()
+			store.FailKind = int(w["failKind"]) // which of the real trust store's error classes an unloadable store answers with
 			switch w["anchor"] {
 			case 0:
 				store.Put(storeType, "s", chain.Root().Cert)
@@ -300,8 +302,8 @@ func (l c02) Exec(env *core.Env) *core.Result {
 		if plug != 0 && minVersionInvalid {
 			pluginProblem = true // the signed minimum version is no semantic version
 		}
-		situation := fmt.Sprintf("anchor=%d identity=%d expiry=%d certTime=%d revocation=%d plugin=%d verdicts=%d/%d callErr=%d crit=%d/%d scheme=%d fmt=%d legacy=%d bits=%d pver=%d prelude=%d entry=%d minver=%d warm=%d",
-			w["anchor"], w["identity"], w["expiry"], w["certTime"], w["revocation"], plug, w["vIdentity"], w["vRevocation"], w["callErr"], w["crit"], w["critKey"], w["scheme"], w["format"], w["legacy"], w["bits"], w["pver"], w["prelude"], w["entry"], w["minver"], w["warm"])
+		situation := fmt.Sprintf("anchor=%d identity=%d expiry=%d certTime=%d revocation=%d plugin=%d verdicts=%d/%d callErr=%d crit=%d/%d scheme=%d fmt=%d legacy=%d bits=%d pver=%d prelude=%d entry=%d minver=%d warm=%d failKind=%d",
+			w["anchor"], w["identity"], w["expiry"], w["certTime"], w["revocation"], plug, w["vIdentity"], w["vRevocation"], w["callErr"], w["crit"], w["critKey"], w["scheme"], w["format"], w["legacy"], w["bits"], w["pver"], w["prelude"], w["entry"], w["minver"], w["warm"], w["failKind"])
 		accepted := map[string]bool{}
 		for base := int64(0); base < 3; base++ {
 			levelName, override, enf := levelFromKnobs(base, w["bits"])
